@@ -204,7 +204,7 @@ fn check_writer(t: &mut Tape, cx: &mut Cx) -> Res {
             0 => {
                 // short raw slices, and longer ones that are all zero / one value / a counter (what a bulk fast path would special-case)
                 let b = if t.chance(25) {
-                    let n = [0usize, 1, 16, 63, 64, 65, 128, 255, 256, 300][t.below(10)] + t.below(3);
+                    let n = if t.chance(2) { (1 << 20) + t.below(3000) } else { [0usize, 1, 16, 63, 64, 65, 128, 255, 256, 300, 4096, 65536][t.below(12)] + t.below(3) };
                     t.blob_cheap(n)
                 } else {
                     let n = t.below(20);
